@@ -454,7 +454,7 @@ impl Exec {
                 entry.explicit_weight_pending = false;
                 let charged = weights.get(&id).map(|(_, weight)| *weight);
                 if charged != Some(entry.weight) {
-                    field_failure = Some(Failure::new("C08", "C08/explicit-weight-not-charged", format!("put_or_update of key {} with the explicit weight {} was acknowledged Accepted, but the key is charged {:?}", k, entry.weight, charged)));
+                    field_failure = Some(Failure::new("C08", "C08/explicit-weight-not-charged", format!("put_or_update of key {} with the explicit weight {} was acknowledged Accepted, but the key is charged {:?}", k, entry.weight, charged)).with_also(vec!["C12".to_string()]));
                     break;
                 }
             }
